@@ -76,6 +76,7 @@ type World struct {
 	streamHold bool              // the Push handler waits (after each received message) until this is cleared
 	plainSeen  []string          // what Svc.Plain was invoked with (length and first bytes), in order
 	delay      time.Duration     // virtual time every handler invocation takes
+	duplexPush []string          // what the pushes of the Duplex handler's second goroutine returned
 }
 
 func newWorld() *World {
